@@ -215,10 +215,8 @@ theorem ext_convertFrom {p pJ pK : Pool} {n : Nat} {self other c' : Cont} {so : 
   split at h
   · unfold Cont.svConvert at h
     split at h
-    · cases h
-    · split at h
-      · exact ext_cloneFrom hb hn h
-      · exact ext_cloneCross hb hn h
+    · exact ext_cloneFrom hb hn h
+    · exact ext_cloneCross hb hn h
   · exact ext_assign hb hn h
 
 theorem ext_xconvFrom {p pJ pK : Pool} {n : Nat} {self other c' : Cont}
